@@ -287,6 +287,56 @@ static void on_alarm(int sig)
 	_exit(3);
 }
 
+/* ---- bulk ops: n allocations in one call, summary instead of one line per block ----------- */
+static int cmp_ptr(const void *a, const void *b)
+{
+	const unsigned char *x = *(unsigned char *const *)a, *y = *(unsigned char *const *)b;
+	return x < y ? -1 : x > y;
+}
+struct BulkSum { unsigned long long cnt; int al, in, dj, ct; uint64_t h; };
+static void bulk_init(struct BulkSum *b) { b->cnt = 0; b->al = b->in = b->dj = b->ct = 1; b->h = HC_FNV_INIT; }
+/* register one returned block: alignment, inside a live base region, hash of its address as the
+ * model numbers it ((region+1) * 2^40 + offset); fill it completely with a per-block pattern */
+static void bulk_add(struct BulkSum *b, unsigned char *p, size_t len, size_t align)
+{
+	long i = trkm_find(p, len);
+	size_t j;
+	if (align && (uintptr_t)p % align) b->al = 0;
+	if (i < 0) { b->in = 0; i = trkm_find(p, 0); }
+	if (i >= 0)
+		b->h = mix(b->h, ((uint64_t)(trkm_regs[i].seq + 1) << 40) + (uint64_t)(p - trkm_regs[i].user) + trkm_regs[i].mis);
+	else
+		b->h = mix(b->h, 0);
+	if (b->in)
+		for (j = 0; j < len; j++) p[j] = pat((unsigned)b->cnt, j);
+	b->cnt++;
+}
+/* after all allocations: pairwise disjoint (sorted by address), disjoint from the blocks tracked
+ * one by one, and every block still holds its pattern */
+static void bulk_finish(struct BulkSum *b, unsigned char **ptrs, size_t len)
+{
+	unsigned long long i; size_t j; int k;
+	unsigned char **sorted;
+	if (b->in)
+		for (i = 0; i < b->cnt; i++)
+			for (j = 0; j < len; j++) if (ptrs[i][j] != pat((unsigned)i, j)) { b->ct = 0; i = b->cnt; break; }
+	sorted = malloc((b->cnt + 1) * sizeof *sorted);
+	memcpy(sorted, ptrs, b->cnt * sizeof *sorted);
+	qsort(sorted, b->cnt, sizeof *sorted, cmp_ptr);
+	for (i = 1; i < b->cnt; i++) if (len && sorted[i - 1] + len > sorted[i]) { b->dj = 0; break; }
+	for (k = 0; k < NBLK && b->cnt && len; k++) {
+		unsigned long long lo = 0, hi = b->cnt;
+		if (!blks[k].live || !blks[k].len) continue;
+		while (lo < hi) { unsigned long long mid = (lo + hi) / 2; if (sorted[mid] < blks[k].ptr) lo = mid + 1; else hi = mid; }
+		if (lo < b->cnt && sorted[lo] < blks[k].ptr + blks[k].len) b->dj = 0;
+		if (lo > 0 && sorted[lo - 1] + len > blks[k].ptr) b->dj = 0;
+	}
+	free(sorted);
+	if (!check_all()) b->ct = 0;
+	printf("n=%llu al=%d in=%d dj=%d ct=%d ## h=%llu live=%ld\n", b->cnt, b->al, b->in, b->dj, b->ct,
+	       (unsigned long long)b->h, trkm_live);
+}
+
 #define BAD do { puts("bad-op"); goto next; } while (0)
 #define U(i, var) unsigned long long var; if (!parse_u(w[i], &var)) BAD
 
@@ -505,6 +555,49 @@ int main(void)
 			if (p) { blks[b].live = 1; blks[b].slot = s; blks[b].ptr = p; blks[b].len = slots[s].objsize; blks[b].fill = ++fillgen; }
 			out_block(b, p, slots[s].objsize, (slots[s].align == 16 && slots[s].parent == 0) ? 16 : 8, ct);
 			if (p && trkm_find(p, slots[s].objsize) >= 0) fill_blk(&blks[b]); else if (p) blks[b].len = 0;
+			goto next;
+		}
+		if (n == 4 && !strcmp(w[0], "sbulk")) {
+			U(1, s); U(2, cnt); U(3, mis);
+			struct BulkSum bs; unsigned char **ptrs; unsigned long long i; size_t j;
+			if (s >= NSLOT || slots[s].kind != K_SLAB || cnt > 4000000) BAD;
+			alarm(120);
+			trkm_next_mis = mis;
+			bulk_init(&bs);
+			ptrs = malloc((cnt + 1) * sizeof *ptrs);
+			for (i = 0; i < cnt; i++) {
+				unsigned char *p;
+				init_calls = 0; init_arg = NULL;
+				p = slab_alloc(slots[s].slab);
+				if (!p) continue;
+				if (trkm_find(p, slots[s].objsize) >= 0) {
+					if (slots[s].init) { if (init_calls != 1 || init_arg != p) bs.ct = 0; }
+					else for (j = 0; j < slots[s].objsize; j++) if (p[j]) { bs.ct = 0; break; }
+				}
+				ptrs[bs.cnt] = p;
+				bulk_add(&bs, p, slots[s].objsize, (slots[s].align == 16 && slots[s].parent == 0) ? 16 : 8);
+			}
+			bulk_finish(&bs, ptrs, slots[s].objsize);
+			free(ptrs);
+			goto next;
+		}
+		if (n == 5 && !strcmp(w[0], "abulk")) {
+			U(1, s); U(2, cnt); U(3, size); U(4, mis);
+			struct BulkSum bs; unsigned char **ptrs; unsigned long long i;
+			if (s >= NSLOT || !(slots[s].kind == K_POOL || slots[s].kind == K_TREE || slots[s].kind == K_TALLOC)
+			    || cnt > 4000000 || size >= (1ULL << 32) || size == 0) BAD;
+			alarm(120);
+			trkm_next_mis = mis;
+			bulk_init(&bs);
+			ptrs = malloc((cnt + 1) * sizeof *ptrs);
+			for (i = 0; i < cnt; i++) {
+				unsigned char *p = cx_alloc(slots[s].cx, size);
+				if (!p) continue;
+				ptrs[bs.cnt] = p;
+				bulk_add(&bs, p, size, slots[s].kind == K_POOL ? slots[s].palign : 0);
+			}
+			bulk_finish(&bs, ptrs, size);
+			free(ptrs);
 			goto next;
 		}
 		if (n == 3 && !strcmp(w[0], "sf")) {
